@@ -429,6 +429,9 @@ func c9RunSched(c c9Case) (res c9Result) {
 		return false, fmt.Errorf("not live (scripted)")
 	}
 	verifhook.Set(func(point string, subject any) {
+		if point == "sweep:scan" {
+			return // inside the sweeper's read lock: only the lock-trace probe stops there
+		}
 		cur := int(atomic.LoadInt32(&ctl.cur))
 		if d, ok := subject.(*DecoyRegistration); ok && d != nil {
 			if ri, ok := workerOfThread[cur]; !ok || w.regs[ri] != d {
@@ -656,7 +659,7 @@ func c9RunDistrib(c c9Case) (res c9Result) {
 			select {
 			case <-returned:
 				res.Returned = append(res.Returned, true)
-			case <-time.After(2 * time.Second):
+			case <-time.After(4 * time.Second):
 				res.Returned = append(res.Returned, false)
 			}
 			res.ReturnMs = append(res.ReturnMs, time.Since(t0).Milliseconds())
@@ -689,7 +692,7 @@ func c9RunDistrib(c c9Case) (res c9Result) {
 			select {
 			case <-returned:
 				res.Returned = append(res.Returned, true)
-			case <-time.After(2 * time.Second):
+			case <-time.After(4 * time.Second):
 				res.Returned = append(res.Returned, false)
 			}
 			res.ReturnMs = append(res.ReturnMs, time.Since(t0).Milliseconds())
@@ -701,7 +704,7 @@ func c9RunDistrib(c c9Case) (res c9Result) {
 			for i := 0; i < c.Messages; i++ {
 				select {
 				case regChan <- c9Wire(tr*1000 + i):
-				case <-time.After(2 * time.Second):
+				case <-time.After(4 * time.Second):
 					res.SendBlocked = true
 				}
 				if res.SendBlocked {
@@ -729,7 +732,7 @@ func c9RunDistrib(c c9Case) (res c9Result) {
 			select {
 			case <-returned:
 				res.Returned = append(res.Returned, true)
-			case <-time.After(2 * time.Second):
+			case <-time.After(4 * time.Second):
 				res.Returned = append(res.Returned, false)
 			}
 			res.ReturnMs = append(res.ReturnMs, time.Since(t0).Milliseconds())
